@@ -473,7 +473,9 @@ func slicesEqual(x, y any) (err error) {
 		// Get primitives out of the way
 		var tried bool
 		if tried, err = primitivesEqual(xv, yv); tried {
-			return
+			// a mismatch ends the loop (err != nil);
+			// otherwise proceed to the next element.
+			continue
 		}
 
 		err = valuesEqual(xv, yv)
